@@ -160,8 +160,8 @@ class HRNP(BytesInterface):
         16-bit ones-complement checksum of header (without checksum field) and payload bytes
         """
         if len(checked_data) % 2 == 1:
-            # add padding byte
-            checked_data += b"\x00"
+            # add padding byte (to a private copy, a caller's bytearray must not grow)
+            checked_data = bytes(checked_data) + b"\x00"
 
         check: int = 0
 
